@@ -73,6 +73,10 @@ type step struct {
 	// returned and whose clean-up has finished (a retried call re-sends x-lunar-req-id); none such: a fresh id
 	Retry bool `json:"retry_with_the_id_of_an_allowed_request,omitempty"`
 	N     int  `json:"n,omitempty"` // tick: how many; release/remove: which held goroutine
+	// IncFails (tick): in the first of the ticks the quota store fails the increment for the request the loop tries
+	// (fault point queue.quota-inc, hook ec5ca4b; the in-memory state never fails, a shared store can): nobody is
+	// admitted in that tick, and the request keeps its place - it is still the one the next tick tries first
+	IncFails bool `json:"quota_increment_fails,omitempty"`
 }
 
 type sched struct {
@@ -248,6 +252,12 @@ func installHooks() {
 			w.cond.Broadcast()
 		}
 		w.mu.Unlock()
+	})
+	verifhook.SetFault(func(point, _ string) error {
+		if point == "queue.quota-inc" && incFaultArmed.CompareAndSwap(true, false) {
+			return fmt.Errorf("verif: the quota store failed the increment")
+		}
+		return nil
 	})
 	verifhook.SetYield(func(point string, id string) {
 		if strings.HasPrefix(point, "state.") {
@@ -994,14 +1004,27 @@ func (x *executor) releaseWaits() {
 	})
 }
 
-func (x *executor) tick() error {
+func (x *executor) tick() error { return x.tickWith(false) }
+
+var incFaultArmed atomic.Bool
+
+func (x *executor) tickWith(incFails bool) error {
 	now := x.clk.Now().Add(tickStep)
 	before := x.waiting()
 	if len(before) > 0 {
 		x.or.candidate(now)
 	}
+	if incFails {
+		incFaultArmed.Store(true)
+		defer incFaultArmed.Store(false)
+		x.class("tick:quota increment fails for the request the loop tries")
+	}
 	for _, m := range x.alive() {
-		m.pred = m.tick(now)
+		if incFails {
+			m.pred = m.tickIncFails()
+		} else {
+			m.pred = m.tick(now)
+		}
 	}
 	x.seq++
 	tickSeq := x.seq
@@ -1209,7 +1232,7 @@ func runSchedule(sc sched, opts execOpts) (rep report) {
 				}
 			case "tick":
 				for k := 0; k < st.N; k++ {
-					if e := x.tick(); e != nil {
+					if e := x.tickWith(st.IncFails && k == 0); e != nil {
 						return e
 					}
 				}
@@ -1391,7 +1414,8 @@ func genSched() *rapid.Generator[sched] {
 			}
 			if rapid.IntRange(0, 5).Draw(t, "noticks") != 5 {
 				out = append(out, step{Op: "tick",
-					N: rapid.SampledFrom([]int{1, 1, 1, 2, 3, 9, w10 - 1, w10, w10 + 1}).Draw(t, "ticks")})
+					N:        rapid.SampledFrom([]int{1, 1, 1, 2, 3, 9, w10 - 1, w10, w10 + 1}).Draw(t, "ticks"),
+					IncFails: rapid.IntRange(0, 7).Draw(t, "inc-fails") == 0})
 			}
 			if rapid.IntRange(0, 5).Draw(t, "loose2") == 5 {
 				out = append(out, loose.Draw(t, "l2"))
